@@ -252,14 +252,16 @@ def check_col(ctx):
                 "(enumerate(unique[1:]) paired with j+1); the matrix has one column per unique id; the trend matrix stacks it before vander(t - t_ref, increasing)[:, 1:]; "
                 "the count check len(unique(ids)) - 1 != n_offsets -> raise dominates the merge; offset priors keep the caller's order.")
     fn = ctx.prog.func(LH, "get_constant_term_design_matrix", R)
-    unq = [s for s in fn.body if isinstance(s, ast.Assign) and isinstance(s.value, ast.Call) and A.call_name(s.value) == "np.unique"]
-    oku = len(unq) == 1 and canon(unq[0].value) == canon(parse("np.unique(ids)"))
-    ctx.check(R, fn, "unique ids from the ids array", oku, "unique ids = %s" % (A.unparse(unq[0].value) if unq else None), key="unique")
-    uname = canon(unq[0].targets[0]) if unq else "unq_ids"
-    alloc = [s for s in fn.body if isinstance(s, ast.Assign) and isinstance(s.value, ast.Call) and A.call_name(s.value) == "np.zeros"]
-    oka = len(alloc) == 1 and canon(alloc[0].value.args[0]) == canon(parse("(len(data), len(%s))" % uname))
-    ctx.check(R, fn, "one column per unique id, one row per epoch", oka, "allocation %s" % (A.unparse(alloc[0].value) if alloc else None), key="alloc")
-    M = canon(alloc[0].targets[0]) if alloc else "constant_part"
+    flow = A.Flow(fn)
+    # the returned matrix and its allocation
+    rets = [s for s in A.walk_local(fn) if isinstance(s, ast.Return)]
+    M = canon(rets[0].value) if len(rets) == 1 and isinstance(rets[0].value, ast.Name) else None
+    alloc = [s for s in fn.body if isinstance(s, ast.Assign) and isinstance(s.value, ast.Call) and A.call_name(s.value) == "np.zeros" and canon(s.targets[0]) == M]
+    UNQ = canon(parse("np.unique(ids)"))
+    oka = len(alloc) == 1 and canon(A.inline_temporaries(alloc[0].value.args[0], alloc[0], fn)) == canon(parse("(len(data), len(np.unique(ids)))"))
+    ctx.check(R, alloc[0] if alloc else fn, "one column per unique id, one row per epoch", oka, "allocation %s" % (A.unparse(alloc[0].value) if alloc else None), key="alloc")
+    ctx.check(R, fn, "returns the filled matrix", M is not None and bool(alloc), "returns %s" % (A.unparse(rets[0].value) if rets else None), key="ret", nontrivial=False)
+    M = M or "constant_part"
     c0 = [s for s in fn.body if isinstance(s, ast.Assign) and canon(s.targets[0]) == canon(parse("%s[:, 0]" % M))]
     ctx.check(R, fn, "column 0 is all ones (every epoch has the reference velocity)", len(c0) == 1 and A.const_value(c0[0].value) in (1, 1.0), "column 0 = %s" % (A.unparse(c0[0].value) if c0 else None), key="col0")
     loops = [l for l in fn.body if isinstance(l, ast.For)]
@@ -267,8 +269,8 @@ def check_col(ctx):
     why = "no loop over the further unique ids"
     if len(loops) == 1:
         l = loops[0]
-        it = l.iter
-        if isinstance(it, ast.Call) and A.call_name(it) == "enumerate" and canon(it.args[0]) == canon(parse("%s[1:]" % uname)) and isinstance(l.target, ast.Tuple):
+        it = A.inline_temporaries(l.iter, l, fn)
+        if isinstance(it, ast.Call) and A.call_name(it) == "enumerate" and canon(it.args[0]) == canon(parse("np.unique(ids)[1:]")) and isinstance(l.target, ast.Tuple) and not it.args[1:] and not it.keywords:
             j, idn = l.target.elts[0].id, l.target.elts[1].id
             st = [s for s in l.body if isinstance(s, ast.Assign)]
             if len(st) == 1 and len(l.body) == 1:
@@ -278,11 +280,14 @@ def check_col(ctx):
                 why = "loop body stores `%s = %s`, expected indicator of `ids == id` in column j + 1" % (A.unparse(tgt), A.unparse(st[0].value))
             else:
                 why = "loop body is not the single indicator store (rows must be selected by the mask ids == id, not by position)"
+        elif isinstance(it, ast.Call) and A.call_name(it) == "enumerate" and canon(it.args[0]) == canon(parse("np.unique(ids)[1:]")) and A.const_value(A.get_arg(it, 1, "start")) == 1 and isinstance(l.target, ast.Tuple):
+            j, idn = l.target.elts[0].id, l.target.elts[1].id
+            st = [s for s in l.body if isinstance(s, ast.Assign)]
+            ok = len(st) == 1 and len(l.body) == 1 and canon(st[0].targets[0]) == canon(parse("%s[ids == %s, %s]" % (M, idn, j))) and A.const_value(st[0].value) in (1, 1.0)
+            why = "loop body with enumerate(start=1) does not store the indicator in column j"
         else:
-            why = "loop is `for %s in %s`, not enumerate(unique[1:])" % (A.unparse(l.target), A.unparse(it))
+            why = "loop is `for %s in %s`, not enumerate(unique(ids)[1:])" % (A.unparse(l.target), A.unparse(it))
     ctx.check(R, fn, "column j+1 = indicator of the (j+1)-th unique id", ok, why, key="indicator")
-    rets = [s for s in A.walk_local(fn) if isinstance(s, ast.Return)]
-    ctx.check(R, fn, "returns the filled matrix", len(rets) == 1 and canon(rets[0].value) == M, "returns %s" % (A.unparse(rets[0].value) if rets else None), key="ret", nontrivial=False)
     idsdef = [s for s in fn.body if isinstance(s, ast.Assign) and canon(s.targets[0]) == "ids"]
     ctx.check(R, fn, "ids only normalised to an array", all(canon(s.value) == canon(parse("np.array(ids)")) for s in idsdef), "ids rewritten as %s" % [A.unparse(s.value) for s in idsdef], key="ids-norm", nontrivial=False)
     # trend matrix
